@@ -53,6 +53,7 @@ class Interp(object):
         self.counters = {}
         self.ser_hook = ser_hook  # wraps serializer functions (C13)
         self.tls = threading.local()
+        self.after_api = None  # called after every eliot API call that returned (C11 acknowledgements)
 
     # ----------------------------------------------------------------- bookkeeping
     def count(self, key, n=1):
@@ -72,7 +73,10 @@ class Interp(object):
         try:
             with warnings.catch_warnings():
                 warnings.simplefilter("ignore")
-                return True, fn(*a, **kw)
+                r = fn(*a, **kw)
+            if self.after_api is not None:
+                self.after_api()
+            return True, r
         except BaseException as e:
             self.viol("eliot API call %s raised %s: %s" % (what, type(e).__name__, excs.safe_text(e)[1]),
                       mech=getattr(self, "api_mech", lambda w, e: None)(what, e), call=what)
